@@ -667,7 +667,8 @@ fn c10_check_program(
         let class = if (p.is_empty() || p == "/") && may_be_empty {
             Some("depth-empty-component".to_string())
         }
-        else if tree_in_branch {
+        else if tree_in_branch && (comps as usize) < lo {
+            // the recorded finding is an over-counted LOWER bound only
             Some("depth-tree-in-branch".to_string())
         }
         else {
